@@ -554,6 +554,17 @@ class FailingCleanup:
 _CLASSES = None
 
 
+class _FalsyCallable:
+    def __init__(self, f):
+        self.f = f
+
+    def __call__(self, *a, **k):
+        return self.f(*a, **k)
+
+    def __len__(self):
+        return 0
+
+
 def metric_classes():
     global _CLASSES
     if _CLASSES is None:
@@ -699,6 +710,10 @@ class Run:
         if ev.cb == "s":
             def cb(m, sid=sid):
                 self.on_complete(sid, m)
+            if sid % 2:
+                # a callable object that is also an (empty) collection: whether a completion callback was given must not be
+                # decided by its truth value
+                cb = _FalsyCallable(cb)
             kw["completion"] = cb
         elif ev.cb == "a":
             async def acb(m, sid=sid):
